@@ -19,7 +19,9 @@ tsan_leg() {
     fi
 }
 
-MIRI_BASE="-Zmiri-disable-isolation"
+# -Zmiri-deterministic-floats: Miri otherwise perturbs tanh/exp/ln results by random ulps on purpose, so two runs of
+# the same float decoder (C handle vs fresh Rust decoder) may legitimately differ - not a property violation
+MIRI_BASE="-Zmiri-disable-isolation -Zmiri-deterministic-floats"
 case "$ID" in
 C02 | C08 | C09 | C11 | C17)
     # pure code on ndarray / Vec paths: cheap completeness leg, thorough tier only
